@@ -833,11 +833,19 @@ class ExcludeRegionState(object):  # pylint: disable=too-many-instance-attribute
             "G92 E{e}".format(e=self.position.E_AXIS.nativeToLogical())
         )
 
-        newZ = self.position.Z_AXIS.nativeToLogical()
-        oldZ = self.lastPosition.Z_AXIS.nativeToLogical()
+        def axisTarget(axis, lastAxis):
+            """Return the value that moves the axis from lastAxis to axis in the current mode."""
+            if (axis.absoluteMode):
+                return axis.nativeToLogical()
+
+            # Relative positioning (G91): the printer expects an offset from where it physically is
+            return (axis.current - lastAxis.current) / axis.unitMultiplier
+
+        newZ = self.position.Z_AXIS.current
+        oldZ = self.lastPosition.Z_AXIS.current
         moveZcmd = "G0 F{f} Z{z}".format(
             f=self.feedRate / self.feedRateUnitMultiplier,
-            z=newZ
+            z=axisTarget(self.position.Z_AXIS, self.lastPosition.Z_AXIS)
         )
 
         if (newZ > oldZ):
@@ -850,8 +858,8 @@ class ExcludeRegionState(object):  # pylint: disable=too-many-instance-attribute
             # Use G0 ("fast" linear move) as this is a non-extruding move
             "G0 F{f} X{x} Y{y}".format(
                 f=self.feedRate / self.feedRateUnitMultiplier,
-                x=self.position.X_AXIS.nativeToLogical(),
-                y=self.position.Y_AXIS.nativeToLogical()
+                x=axisTarget(self.position.X_AXIS, self.lastPosition.X_AXIS),
+                y=axisTarget(self.position.Y_AXIS, self.lastPosition.Y_AXIS)
             )
         )
 
